@@ -141,18 +141,24 @@ def directory(ls):
             tuple((l, tuple(ls.get_location_lights(l))) for l in ls.get_location_names()))
 
 
-def build(names, history):
+def build(names, history, observe_each=False):
+    """observe_each: every getter is called (and the invariant checked) after every event, as a client that
+    looks at the directory between operations does; otherwise only the final state is looked at.  The two
+    modes are searched separately, because looking may itself leave state behind (a cache)."""
     s = Sys(names)
     bad = None
     for ev in history:
         r = s.apply(ev)
         if r and bad is None:
             bad = (r, '')
+        if observe_each and bad is None:
+            bad = s.invariant()
     return s, bad
 
 
 def _expand(args):
-    names, histories = args
+    names, histories = args[:2]
+    observe_each = len(args) > 2 and args[2]
     evs = events(names)
     out = []
     viol = []
@@ -161,7 +167,7 @@ def _expand(args):
         for ev in evs:
             h2 = hist + (ev,)
             try:
-                s, bad = build(names, h2)
+                s, bad = build(names, h2, observe_each)
                 bad = bad or s.invariant()
             except Exception as ex:           # an operation of the directory raised
                 import traceback
@@ -175,7 +181,7 @@ def _expand(args):
     return out, viol, n_trans
 
 
-def bfs(names, max_depth):
+def bfs(names, max_depth, observe_each=False):
     s0, _ = build(names, ())
     seen = {s0.canon()}
     frontier = [()]
@@ -186,7 +192,7 @@ def bfs(names, max_depth):
     while frontier and depth < max_depth:
         depth += 1
         chunks = [frontier[i::par.NPROC] for i in range(par.NPROC)]
-        results = par.run_tasks(_expand, [(names, c) for c in chunks if c])
+        results = par.run_tasks(_expand, [(names, c, observe_each) for c in chunks if c])
         nxt = []
         for out, v, n in results:
             transitions += n
@@ -313,6 +319,13 @@ def run(tier, seed):
             viol.setdefault(k, v)
     else:
         stats, viol = bfs(NAMES, 14)
+    # the same search with every getter called after every event
+    so, vo = bfs(NAMES[:2], 14, True) if tier == 'quick' else bfs(NAMES, 14, True)
+    stats['states'] += so['states']
+    stats['transitions'] += so['transitions']
+    stats['fixpoint'] = stats['fixpoint'] and so['fixpoint']
+    for k, v in vo.items():
+        viol.setdefault(k, v)
     for kind, (cnt, hist, detail) in sorted(viol.items()):
         rep.violation(kind, '%s (%d transitions): after %r: %s' % (kind, cnt, hist, detail),
                       {'history': hist, 'detail': detail, 'part': 'directory'})
@@ -333,7 +346,8 @@ def run(tier, seed):
         'rule': 'BFS over directory histories: %d events per state (125 population snapshots over names a,b,c x groups g,h x '
                 'locations p,q x absent; failed discover; two time advances; expire; refresh), canonical state = per name '
                 '(group, location, age capped at 1.5 x max age) + the three index structures + the population on the network; '
-                'each transition rebuilds a fresh real LightSet and replays the history' % len(events(NAMES)),
+                'each transition rebuilds a fresh real LightSet and replays the history; searched twice: looking at the directory '
+                'only in the state reached, and calling every getter after every event' % len(events(NAMES)),
         'exhaustive': True,
         'fixpoint_reached': stats['fixpoint'],
         'bfs_depth': stats['depth'],
